@@ -10,8 +10,10 @@
 package explore
 
 import (
+	"crypto/sha256"
 	"fmt"
 	"os"
+	"path/filepath"
 	"runtime/debug"
 	"strings"
 	"time"
@@ -114,10 +116,10 @@ func (r *Run) Seen(key string) {
 
 // Violation describes a property violation found in one execution.
 type Violation struct {
-	Signature string `json:"signature"` // stable identity: invariant id + failing site/input shape
-	Message   string `json:"message"`
-	Scenario  string `json:"scenario"`
-	Choices   []int  `json:"choices"`
+	Signature string   `json:"signature"` // stable identity: invariant id + failing site/input shape
+	Message   string   `json:"message"`
+	Scenario  string   `json:"scenario"`
+	Choices   []int    `json:"choices"`
 	Labels    []string `json:"labels,omitempty"` // labels of non-default choices
 	Trace     []string `json:"trace,omitempty"`
 }
@@ -153,11 +155,16 @@ type Explorer struct {
 	After func(r *Run)
 	// OnViolation receives each violation (after it was replayed to confirm
 	// determinism).
-	OnViolation func(v Violation)
-	Deadline    time.Time
-	MaxExec     int
+	OnViolation   func(v Violation)
+	Deadline      time.Time
+	MaxExec       int
 	Shard, Shards int
-	Prune       bool // enable Seen()-based pruning
+	Prune         bool // enable Seen()-based pruning
+	// Mute is called with true/false around executions that another shard
+	// accounts for, so that collectors can ignore them.
+	Mute func(bool)
+	// ClaimDir enables dynamic claiming of subtrees between shard processes.
+	ClaimDir string
 	// Wrap, if set, runs the body (e.g. inside a synctest bubble).
 	Wrap func(fn func())
 
@@ -233,28 +240,75 @@ func (e *Explorer) Explore() {
 		e.dfs(nil, 0)
 		return
 	}
-	// Sharded: everyone runs the root; children are dealt round-robin.
-	root := e.exec(nil)
-	if e.Shard == 0 {
-		e.account(root)
+	// Sharded: the tree is expanded breadth-first (every shard replays the
+	// same interior executions; each is accounted by exactly one shard) until
+	// there are enough subtrees to deal round-robin; each shard then explores
+	// its subtrees depth-first.
+	type unit struct {
+		prefix []int
+		from   int
 	}
-	j := 0
-	devs := 0
-	for i := 0; i < len(root.run.Points); i++ {
-		p := root.run.Points[i]
-		if devs+p.Cost <= e.Bound {
-			for alt := 1; alt < p.N; alt++ {
-				if j%e.Shards == e.Shard {
-					if e.stop() {
-						return
+	queue := []unit{{nil, 0}}
+	target := 8 * e.Shards
+	idx := 0
+	for len(queue) > 0 && len(queue) < target && idx < 4096 {
+		u := queue[0]
+		queue = queue[1:]
+		owned := idx%e.Shards == e.Shard
+		if !owned && e.Mute != nil {
+			e.Mute(true)
+		}
+		o := e.exec(u.prefix)
+		if !owned && e.Mute != nil {
+			e.Mute(false)
+		}
+		if owned {
+			e.account(o)
+		}
+		idx++
+		r := o.run
+		devs := 0
+		for i := 0; i < len(r.Points); i++ {
+			if i >= u.from {
+				p := r.Points[i]
+				if devs+p.Cost <= e.Bound {
+					for alt := 1; alt < p.N; alt++ {
+						pre := append(append([]int{}, r.Choices[:i]...), alt)
+						queue = append(queue, unit{pre, len(pre)})
 					}
-					pre := append(append([]int{}, root.run.Choices[:i]...), alt)
-					e.dfs(pre, len(pre))
 				}
-				j++
+			}
+			if r.Choices[i] != 0 {
+				devs += r.Points[i].Cost
 			}
 		}
 	}
+	for j, u := range queue {
+		if !e.claim(j) {
+			continue
+		}
+		if e.stop() {
+			return
+		}
+		e.dfs(u.prefix, u.from)
+	}
+}
+
+// claim decides whether this shard explores subtree j: dynamically through
+// exclusive file creation in ClaimDir when set (every shard computes the
+// same subtree list, so claims are consistent), else round-robin.
+func (e *Explorer) claim(j int) bool {
+	if e.ClaimDir == "" {
+		return j%e.Shards == e.Shard
+	}
+	h := sha256.Sum256([]byte(e.Scenario))
+	name := filepath.Join(e.ClaimDir, fmt.Sprintf("%x-%d", h[:6], j))
+	f, err := os.OpenFile(name, os.O_CREATE|os.O_EXCL|os.O_WRONLY, 0o644)
+	if err != nil {
+		return false
+	}
+	f.Close()
+	return true
 }
 
 func (e *Explorer) account(o outcome) {
